@@ -61,7 +61,7 @@ impl<'a> G<'a> {
     }
 
     fn int(&mut self, d: u32) -> String {
-        let top = if d == 0 { 4 } else { 16 };
+        let top = if d == 0 { 4 } else { 24 };
         for _ in 0..4 {
             match self.p.below(top) {
                 0 => return format!("{}", self.p.range(0, 9)),
@@ -134,15 +134,65 @@ impl<'a> G<'a> {
                     let a = self.int(d - 1);
                     let b = self.int(d - 1);
                     let c = self.int(d - 1);
+                    let v = self.fresh("ov");
                     if self.p.chance(1, 2) {
-                        return format!("(match Opt::Som({a}) {{ Opt::Som(v) => (v + {b}), Opt::Non => {c} }})");
+                        return format!("(match Opt::Som({a}) {{ Opt::Som({v}) => ({v} + {b}), Opt::Non => {c} }})");
                     }
-                    return format!("(match Opt::Non {{ Opt::Som(v) => (v + {b}), Opt::Non => {c} }})");
+                    return format!("(match Opt::Non {{ Opt::Som({v}) => ({v} + {b}), Opt::Non => {c} }})");
                 }
                 14 => {
                     let a = self.int(d - 1);
                     let b = self.int(d - 1);
-                    return format!("(match ({a}, {b}) {{ (m0, m1) => (m0 - m1) }})");
+                    let (m0, m1) = (self.fresh("ma"), self.fresh("mb"));
+                    return format!("(match ({a}, {b}) {{ ({m0}, {m1}) => ({m0} - {m1}) }})");
+                }
+                15 => {
+                    let st = self.string(d - 1);
+                    return format!("string_len({st})");
+                }
+                16 => {
+                    // generic function instantiated at int32 (monomorphisation keeps the effect)
+                    let t = self.t();
+                    let a = self.int(d - 1);
+                    return format!("idg(\"{t}\", {a})");
+                }
+                17 => {
+                    let c = self.cell();
+                    return format!("rec({}, {c})", self.p.range(0, 3));
+                }
+                18 => {
+                    let a = self.int(d - 1);
+                    let b = self.int(d - 1);
+                    let e = self.int(d - 1);
+                    return match self.p.below(3) {
+                        0 => format!("Pt::addx(Pt {{ x: {a}, y: {b} }}, {e})"),
+                        1 => format!("(Pt {{ x: {a}, y: {b} }}).addx({e})"),
+                        _ => format!("Cnt::cnt(Pt {{ x: {a}, y: {b} }}, {e})"),
+                    };
+                }
+                19 => {
+                    let a = self.int(d - 1);
+                    let b = self.int(d - 1);
+                    let idx = if self.cfg.failing_ops && self.p.chance(1, 3) { self.int(d - 1) } else { format!("{}", self.p.range(0, 1)) };
+                    return format!("vec_get(vec_push(vec_push(vec_new(), {a}), {b}), {idx})");
+                }
+                20 => {
+                    let a = self.int(d - 1);
+                    return format!("vec_len(vec_push(vec_new(), {a}))");
+                }
+                21 => {
+                    // closure capturing a Ref cell, called twice
+                    let c = self.cell();
+                    let a = self.int(d - 1);
+                    let b = self.int(d - 1);
+                    let cl = self.fresh("cl");
+                    return format!("(match (|w: int32| bump({c}, w)) {{ {cl} => ({cl}({a}) + {cl}({b})) }})");
+                }
+                22 => {
+                    let st = self.string(d - 1);
+                    let a = self.int(d - 1);
+                    let b = self.int(d - 1);
+                    return format!("(match {st} {{ \"a\" => {a}, _ => {b} }})");
                 }
                 _ => {
                     let a = self.int(d - 1);
@@ -158,6 +208,31 @@ impl<'a> G<'a> {
             }
         }
         format!("{}", self.p.range(0, 9))
+    }
+
+    fn string(&mut self, d: u32) -> String {
+        let top = if d == 0 { 2 } else { 5 };
+        match self.p.below(top) {
+            0 => format!("\"{}\"", ["a", "b", "xy", ""][self.p.usize(4)]),
+            1 => {
+                let t = self.t();
+                format!("ps(\"{t}\", \"{}\")", ["a", "q"][self.p.usize(2)])
+            }
+            2 => {
+                let a = self.string(d - 1);
+                let b = self.string(d - 1);
+                format!("({a} + {b})")
+            }
+            3 => {
+                let a = self.int(d - 1);
+                format!("int32_to_string({a})")
+            }
+            _ => {
+                let t = self.t();
+                let a = self.string(d - 1);
+                format!("idg(\"{t}\", {a})")
+            }
+        }
     }
 
     fn boolean(&mut self, d: u32) -> String {
@@ -218,7 +293,7 @@ impl<'a> G<'a> {
         let clos_mark = self.closures.len();
         for _ in 0..n {
             let d = self.cfg.depth;
-            match self.p.below(17) {
+            match self.p.below(18) {
                 12 => {
                     // destructuring of an effectful tuple literal
                     let a = self.int(d);
@@ -247,6 +322,10 @@ impl<'a> G<'a> {
                     // dynamically dispatched effect in statement position
                     let e = self.int(d);
                     s.push_str(&format!("{pad}Eff::emit(dv, {e});\n"));
+                }
+                16 => {
+                    let st = self.string(d);
+                    s.push_str(&format!("{pad}string_println({st});\n"));
                 }
                 15 if self.cfg.failing_ops => {
                     // division at another integer width whose result is discarded
@@ -381,6 +460,11 @@ pub fn generate(p: &mut Prng, cfg: &ConcCfg) -> String {
     s.push_str("fn pb(tag: string, v: bool) -> bool {\n    string_println(tag);\n    v\n}\n\n");
     s.push_str("fn bump(r: Ref[int32], d: int32) -> int32 {\n    ref_set(r, ref_get(r) + d);\n    ref_get(r)\n}\n\n");
     s.push_str("fn add3(a: int32, b: int32, c: int32) -> int32 {\n    a + b * c\n}\n\n");
+    s.push_str("fn ps(tag: string, v: string) -> string {\n    string_println(tag);\n    v\n}\n\n");
+    s.push_str("fn idg[T](tag: string, x: T) -> T {\n    string_println(tag);\n    x\n}\n\n");
+    s.push_str("fn rec(n: int32, r: Ref[int32]) -> int32 {\n    if n < 1 {\n        ref_get(r)\n    } else {\n        ref_set(r, ref_get(r) + n);\n        rec(n - 1, r)\n    }\n}\n\n");
+    s.push_str("impl Pt {\n    fn addx(self: Pt, v: int32) -> int32 {\n        string_println(\"m\");\n        self.x + v\n    }\n}\n\n");
+    s.push_str("trait Cnt {\n    fn cnt(Self, int32) -> int32;\n}\n\nimpl Cnt for Pt {\n    fn cnt(self: Pt, v: int32) -> int32 {\n        string_println(\"c\");\n        self.y + v\n    }\n}\n\n");
     s.push_str("trait Eff {\n    fn emit(Self, int32) -> unit;\n}\n\nimpl Eff for Pt {\n    fn emit(self: Pt, v: int32) -> unit {\n        string_println(\"e\" + int32_to_string(self.x + v))\n    }\n}\n\n");
     s.push_str("fn main() -> unit {\n    let pv = Pt { x: 1, y: 2 };\n    let dv: dyn Eff = pv;\n    let zz = 0;\n    let nn = 7;\n");
     g.ints.push("zz".to_string());
